@@ -3,9 +3,10 @@
 
    Model/Whole.v instantiates the pipeline model (Model/Pipeline.v, properties C07 C05 C02) with the component
    models of the other pipeline properties:
-     whole_env fmt order G :=  e_sum_load / e_sum_bytes = the byte-level gengo.sum of Model/SumFile.v (C08),
+     whole_env fmt order rank G :=  e_sum_load / e_sum_bytes = the byte-level gengo.sum of Model/SumFile.v (C08),
                                e_enabled = Dispatch's IsGeneratorEnabled on merge(G, package tags, declaration tags) (C06),
-                               e_fmt = fmt (the Go formatter, C01), e_order = order (sync.Map order), repaired code.
+                               e_fmt = fmt (the Go formatter, C01), e_order = order (sync.Map of retained genfiles),
+                               e_rm_rank = rank (Go map of stale files: removal order), repaired code.
    The theorems below are (1) AGREEMENT theorems: two independently written readings of the same Go lines compute
    the same thing on the same data, and (2) COMPOSITES that need more than one of the models.
    Corr/Pipe.v evaluates [exec] under this environment on every case of the C07 / C05 / C02 checks. *)
@@ -55,8 +56,8 @@ Print Assumptions Whole_sumcache_is_pipeline.
 
 (* the composed environment satisfies the two equations by definition *)
 Example Whole_env_uses_the_real_sumfile :
-  forall fmt order G, e_sum_load (whole_env fmt order G) = SumFile.sumfile_load
-                      /\ e_sum_bytes (whole_env fmt order G) = SumFile.sumfile_bytes.
+  forall fmt order rank G, e_sum_load (whole_env fmt order rank G) = SumFile.sumfile_load
+                           /\ e_sum_bytes (whole_env fmt order rank G) = SumFile.sumfile_bytes.
 Proof. intros. split; reflexivity. Qed.
 
 (* ---- 1b. Dispatch (C06) and Pipeline: context.go 108-116, 191-220, 268-345 read twice ----
@@ -68,10 +69,10 @@ Proof. intros. split; reflexivity. Qed.
    Side conditions (modelling scope, not disagreement): Dispatch has no gengo.sum cache (no package is skipped:
    Force, no previous sums, ...) and no formatter (everything rendered parses); [fuel] bounds the callback forests. *)
 Theorem Whole_dispatch_is_pipeline :
-  forall fmt order G wps fuel gens a modroot s,
+  forall fmt order rank G wps fuel gens a modroot s,
     NoDup (map wp_path wps) ->
     (forall src, fmt src <> None) ->
-    let E := whole_env fmt order G in
+    let E := whole_env fmt order rank G in
     let w := to_world modroot wps in
     (forall wp, In wp wps -> pkg_changed a w (load_prev E a w s) (to_pkginfo wp) = true) ->
     (forall wp g, In wp wps -> In g gens -> fuel_ok G fuel wp g) ->
@@ -94,10 +95,10 @@ Print Assumptions Whole_dispatch_is_pipeline.
    sequence of GenerateType / GenerateAliasType calls.
    [world_wf]: distinct package paths; per package distinct type names, tag maps with distinct keys. *)
 Theorem Whole_determinism_is_pipeline :
-  forall fmt G (o : Determinism.oracle) a w,
+  forall fmt G (o : Determinism.oracle) rank a w,
     world_wf w -> Determinism.shuffles o -> natural o ->
     forall gens, NoDup (map g_name gens) -> forall s,
-    let E := whole_env fmt (order_of o) G in
+    let E := whole_env fmt (order_of o) rank G in
     match Determinism.run true true (det_render fmt) det_parse_sum (only_gfs o) (det_args G a) (w_direct w) (det_world w)
                           (map (det_gen w) gens) (det_fs s) with
     | None => exec_outcome E a w gens s <> Done
@@ -109,15 +110,15 @@ Theorem Whole_determinism_is_pipeline :
 Proof. exact det_agree. Qed.
 Print Assumptions Whole_determinism_is_pipeline.
 
-(* C04's order independence transfers: Pipeline.exec of the composed system does not depend on the iteration order of
-   the sync.Map of retained genfiles — both runs succeed or neither does, and successful runs leave the same content at
+(* C04's order independence transfers: Pipeline.exec of the composed system does not depend on the iteration orders of
+   the sync.Map of retained genfiles and of the map of stale files — both runs succeed or neither does, and successful runs leave the same content at
    every path and make the same calls.  (Proved through 1c and C04_order_independent, not on the pipeline model.) *)
 Theorem Whole_pipeline_order_independent :
-  forall fmt G (o1 o2 : Determinism.oracle) a w gens s,
+  forall fmt G (o1 o2 : Determinism.oracle) rank1 rank2 a w gens s,
     world_wf w -> Determinism.shuffles o1 -> Determinism.shuffles o2 -> natural o1 -> natural o2 ->
     NoDup (Dispatch.keys G) -> NoDup (map g_name gens) ->
-    let E1 := whole_env fmt (order_of o1) G in
-    let E2 := whole_env fmt (order_of o2) G in
+    let E1 := whole_env fmt (order_of o1) rank1 G in
+    let E2 := whole_env fmt (order_of o2) rank2 G in
     (exec_outcome E1 a w gens s = Done <-> exec_outcome E2 a w gens s = Done)
     /\ (exec_outcome E1 a w gens s = Done ->
         (forall q, fs_lookup q (exec_fs E1 a w gens s) = fs_lookup q (exec_fs E2 a w gens s))
@@ -129,22 +130,22 @@ Print Assumptions Whole_pipeline_order_independent.
    that did not return Done (C02's theorems say what it has and has not done), and a successful run leaves every path
    that is not gengo's own output as it was (C07_frame). *)
 Theorem Whole_determinism_fails_iff_pipeline_fails :
-  forall fmt G (o : Determinism.oracle) a w,
+  forall fmt G (o : Determinism.oracle) rank a w,
     world_wf w -> Determinism.shuffles o -> natural o ->
     forall gens, NoDup (map g_name gens) -> forall s,
     Determinism.run true true (det_render fmt) det_parse_sum (only_gfs o) (det_args G a) (w_direct w) (det_world w)
                     (map (det_gen w) gens) (det_fs s) = None
-    <-> exec_outcome (whole_env fmt (order_of o) G) a w gens s <> Done.
+    <-> exec_outcome (whole_env fmt (order_of o) rank G) a w gens s <> Done.
 Proof. exact det_fails_iff. Qed.
 Print Assumptions Whole_determinism_fails_iff_pipeline_fails.
 
 Theorem Whole_determinism_frame :
-  forall fmt G (o : Determinism.oracle) a w,
+  forall fmt G (o : Determinism.oracle) rank a w,
     world_wf w -> Determinism.shuffles o -> natural o ->
     forall gens, NoDup (map g_name gens) -> forall s f' log q,
     Determinism.run true true (det_render fmt) det_parse_sum (only_gfs o) (det_args G a) (w_direct w) (det_world w)
                     (map (det_gen w) gens) (det_fs s) = Some (f', log) ->
-    ~ own_output (whole_env fmt (order_of o) G) a w s q -> f' q = det_fs s q.
+    ~ own_output (whole_env fmt (order_of o) rank G) a w s q -> f' q = det_fs s q.
 Proof. exact det_frame. Qed.
 Print Assumptions Whole_determinism_frame.
 
@@ -200,7 +201,7 @@ Print Assumptions Whole_write_loop_is_genfile_write_all.
    package-scope alias iff the generator is an AliasGenerator, nothing else (C06_exactly_once); every callback of the
    forest those calls register runs once (the ids run are a permutation of all ids). *)
 Theorem Whole_exactly_once_of_pipeline_trace :
-  forall fmt order G wps fuel gens a modroot s wp g,
+  forall fmt order rank G wps fuel gens a modroot s wp g,
     NoDup (map wp_path wps) -> In wp wps -> In g gens ->
     NoDup (Dispatch.keys G) -> NoDup (Dispatch.keys (P_of wp)) ->
     (forall d, In d (Dispatch.pk_defs (wp_d wp)) -> NoDup (Dispatch.keys (Dispatch.td_tags d))) ->
@@ -208,7 +209,7 @@ Theorem Whole_exactly_once_of_pipeline_trace :
     (forall d, In d (Dispatch.pk_defs (wp_d wp)) -> Dispatch.td_action d <> Dispatch.AErr) ->
     (forall d, In d (Dispatch.pk_defs (wp_d wp)) -> forallb Dispatch.no_err_tree (Dispatch.td_defers d) = true) ->
     fuel_ok G fuel wp g ->
-    let E := whole_env fmt order G in
+    let E := whole_env fmt order rank G in
     let w := to_world modroot wps in
     let gs := map (disp_gen wps fuel) gens in
     exec_outcome E a w gs s = Done -> processed E a w s (to_pkginfo wp) = true ->
@@ -320,7 +321,7 @@ Definition ex_b : wpkg :=
 Definition ex_G : tags := [(bs "gengo:deep", [[]])].
 Definition ex_gens : list Dispatch.gen := [Dispatch.mk_gen 0 (bs "deep") true; Dispatch.mk_gen 1 (bs "deepcopy") false].
 Definition ex_args : args := {| a_all := true; a_force := false; a_base := bs "zz_generated" |}.
-Definition ex_env : env := whole_env (fun src => Some src) (fun _ l => l) ex_G.
+Definition ex_env : env := whole_env (fun src => Some src) (fun _ l => l) rank0 ex_G.
 
 Example Whole_example_run :
   let w := to_world [] [ex_b; ex_a] in
